@@ -51,6 +51,7 @@ from pyimpspec.typing.helpers import (
 )
 from pyimpspec.data import DataSet
 from pyimpspec.analysis.utility import (
+    _calculate_pseudo_chisqr,
     _calculate_residuals,
     get_default_num_procs,
 )
@@ -431,6 +432,13 @@ def perform_zhit(
         Z_exp=data.get_impedances(),
         Z_fit=Z_fit,
     )
+    if offset != 0.0:
+        # The value obtained while adjusting the offset of the modulus data
+        # was calculated using the shifted admittances.
+        pseudo_chisqr = _calculate_pseudo_chisqr(
+            Z_exp=data.get_impedances(),
+            Z_fit=Z_fit,
+        )
 
     return ZHITResult(
         frequencies=f,
